@@ -50,6 +50,24 @@ def term_check(ck, run):
                 ck.assume("T-TERM", fnn, cons, "no strictly growing cursor could be shown from the loop-body facts")
 
 
+def prefix_check(ck, run, fnn):
+    """strict prefixes: a normal return implies that the buffer holds at least the length the unit declares"""
+    if run.N is None or run.root is None or run.env.dead or run.partial:
+        return
+    from ..terms import sym as _sym, free_syms
+    if {str(x) for x in free_syms(run.N)} - {run.root}:
+        return          # the length comes from the caller, not from the octets: not a self-delimiting unit
+    goal = binop(">=", length(_sym(run.root, ty="bytes")), run.N)
+    what = "a strict prefix of a self-delimiting unit is refused: every normal return has len(buffer) >= declared length"
+    st, m = D.budgeted_prove(list(run.env.facts), goal)
+    if st == "proved":
+        ck.proved("G-REFUSE", fnn, what, f"normal return implies {show(goal)[:80]}")
+    elif st == "refutable":
+        ck.refuted("G-REFUSE", fnn, what, f"accepted although shorter than declared: {{{', '.join(f'{show(k)[:40]}={v}' for k, v in m.items())}}}", witness=m)
+    else:
+        ck.assume("G-REFUSE", fnn, what, str(m)[:160])
+
+
 def task(ck, t):
     P = Program(ck.repo)
     try:
@@ -59,6 +77,7 @@ def task(ck, t):
             D.check_escape(ck, run.it, fnn, allowed=run.allowed)
             D.check_xbuf(ck, run.it, fnn)
             term_check(ck, run)
+            prefix_check(ck, run, fnn)
             ck.proved("D-TABLE", fnn, "entry point analysed", f"{len(run.it.reads)} reads, {len(run.it.raises)} raise sites", nontrivial=False)
     except Unsupported as e:
         ck.unknown("E-ESC", str(t), "target group analysed", f"unsupported construct: {e}")
@@ -79,7 +98,7 @@ def run(ck):
         "(IndexError / struct.error cannot occur), with exact slice-clamping axioms; a refutation is reported only with a concrete "
         "octet string. Loops: each summarised loop must strictly advance a cursor. Reads inside summarised loops whose bound "
         "needs an inductive invariant are listed as undecided, not claimed.")
-    for r, t in (("E-ESC", "feasible raises are documented classes"), ("X-BUF", "index / struct.unpack in bounds"), ("T-TERM", "decoder loops make progress"), ("D-TABLE", "every discovered entry point is catalogued")):
+    for r, t in (("E-ESC", "feasible raises are documented classes"), ("X-BUF", "index / struct.unpack in bounds"), ("T-TERM", "decoder loops make progress"), ("G-REFUSE", "normal return implies len(buffer) >= declared length (strict prefixes are refused)"), ("D-TABLE", "every discovered entry point is catalogued")):
         ck.rule(r, t)
     ck.trusted += ["the may-raise model of the interpreter (spverif/interp*.py): indexing, struct, enum casts, decode, assert, dict lookup, None attributes"]
     ck.assumptions += ["arguments other than the octet string are of their annotated types", "strict-prefix rejection follows from X-BUF plus the length refusals checked in C02/C03/C05-C08/C17"]
